@@ -59,7 +59,10 @@ void harness(void) {
 			VF_ASSERT(vf_on_stop_tpt == tpt && vf_on_stop_ew == vf_ew_calls && vf_ew_calls >= 1 && vf_on_stop_starts == vf_on_start_calls &&
 			    vf_on_stop_cur == (void *)tpt, "stop hook: on this thread's record, after the last wait, after the start hook");
 		VF_ASSERT(vf_ew_calls <= 2, "leaves the loop as soon as it is asked to");
-		VF_ASSERT(tpt->state == TP_THREAD_STATE_STOP && tp->threads_cnt == cnt0 && tpt->pt_id == 0, "afterwards: accounted as stopped");
+		VF_ASSERT(tpt->state == TP_THREAD_STATE_STOP && tp->threads_cnt == cnt0, "afterwards: accounted as stopped");
+#if VF_PART == 2
+		VF_ASSERT(tpt->pt_id == 0, "attach_first: the caller's own thread id is not left behind as a thread to join");
+#endif
 		VF_ASSERT(vf_setspecific_calls == 2 && vf_setspecific_first == (const void *)tpt && vf_setspecific_last == NULL && vf_current_tpt == NULL,
 		    "current-thread lookup: set to this record while running, cleared at exit");
 		VF_ASSERT(tp->pvt->state == TP_THREAD_STATE_RUNNING && tp->threads[1].state == TP_THREAD_STATE_STOP, "other records untouched");
